@@ -349,3 +349,9 @@ NOT_APPLICABLE = {
 for _p in ["C01", "C04", "C05", "C06", "C07", "C08", "C09", "C10", "C11", "C12", "C13", "C14", "C16", "C17", "C18", "C19"]:
     if _p not in REGISTRY:
         NOT_APPLICABLE[_p] = _PENDING
+
+
+from .selftest import make_selftest  # noqa: E402
+
+for _pid, _spec in REGISTRY.items():
+    _spec["selftest"] = make_selftest(_pid)
